@@ -135,7 +135,12 @@ func warmKey(o *rtapi.Obs) string {
 	return fmt.Sprintf("val=%s errs=%v panic=%q exprs=%d diverged=%v", o.Val, msgs(o), o.Panic, o.ExprCnt, o.Diverged)
 }
 
+// quirkRefs caches the reference results under defect models for the grammar being run (the
+// result does not depend on the generation flags beyond what its key holds).
+var quirkRefs map[string]*peg.Result
+
 func runGrammar(c *ShardCtx, g *peg.Grammar, f *family) {
+	quirkRefs = map[string]*peg.Result{}
 	text := peg.Print(g, nil)
 	c.Res.Grammars++
 	scripts := f.scripts
@@ -145,6 +150,7 @@ func runGrammar(c *ShardCtx, g *peg.Grammar, f *family) {
 	type refKey struct {
 		in, opt, script int
 		hasState, optG  bool
+		leftRec         bool
 	}
 	refs := map[refKey]*peg.Result{}
 	var inlined map[string]bool
@@ -170,7 +176,7 @@ func runGrammar(c *ShardCtx, g *peg.Grammar, f *family) {
 					continue
 				}
 				for si, script := range scripts {
-					k := refKey{ii, oi, si, b.Flags.HasState(), gen.OptGrammar}
+					k := refKey{ii, oi, si, b.Flags.HasState(), gen.OptGrammar, b.Flags.LeftRecursion}
 					ro := core.RefOptions(&o, b.Flags)
 					if gen.OptGrammar {
 						if inlined == nil {
@@ -265,7 +271,7 @@ func runGrammar(c *ShardCtx, g *peg.Grammar, f *family) {
 					if !obs.Diverged {
 						vc = &ConfCase{Text: text, Gen: gen, HasState: b.Flags.HasState(), HasMemo: b.Flags.HasMemo(), Runs: []ConfRun{{Input: in, Opts: oo, Script: script, Obs: obs}}}
 					}
-					c.Report(v, explainByQuirk(c, g, in, script, ro, obs, pt, o.Filename, co, f, b, &oo), vc)
+					c.Report(v, explainByQuirk(c, g, in, script, ro, obs, pt, o.Filename, co, f, b, &oo, fmt.Sprint(k)), vc)
 				}
 			}
 		}
@@ -278,7 +284,7 @@ func runGrammar(c *ShardCtx, g *peg.Grammar, f *family) {
 // explainByQuirk re-runs the reference with the model of each listed known
 // finding switched on (singly, then all together); if the observation then
 // agrees completely the violation is exactly that known finding.
-func explainByQuirk(c *ShardCtx, g *peg.Grammar, in []byte, script map[int]*rtapi.Block, ro peg.Options, obs *rtapi.Obs, pt *peg.PosTable, filename string, co core.CmpOpts, f *family, b *core.Built, o *rtapi.RunOpts) string {
+func explainByQuirk(c *ShardCtx, g *peg.Grammar, in []byte, script map[int]*rtapi.Block, ro peg.Options, obs *rtapi.Obs, pt *peg.PosTable, filename string, co core.CmpOpts, f *family, b *core.Built, o *rtapi.RunOpts, cacheKey string) string {
 	var quirks []string
 	for _, q := range c.Quirks() {
 		// a finding is only considered where its cause is present
@@ -298,7 +304,14 @@ func explainByQuirk(c *ShardCtx, g *peg.Grammar, in []byte, script map[int]*rtap
 				co.LooseEOFCol, co.InputLen = true, len(in)
 			}
 		}
-		ref := peg.Run(g, in, script, r2)
+		ck := cacheKey + fmt.Sprint(qs, ro.LeftRec, ro.Inlined != nil)
+		ref := quirkRefs[ck]
+		if ref == nil || cacheKey == "" {
+			ref = peg.Run(g, in, script, r2)
+			if cacheKey != "" {
+				quirkRefs[ck] = ref
+			}
+		}
 		d, skipped := core.Compare(ref, obs, pt, filename, co)
 		if skipped {
 			return false
